@@ -5,7 +5,16 @@ and serves the model key <name> (lower case)."""
 import os, re
 here = os.path.dirname(os.path.abspath(__file__))
 skip = {"Main", "Util", "Dispatch"}
+import subprocess
 names = sorted(f[:-5] for f in os.listdir(os.path.join(here, "Drivers")) if f.endswith(".lean") and f[:-5] not in skip)
+# only dispatch to handlers that compile right now (a half-written handler must not take the driver down)
+def builds(targets):
+    return subprocess.run(["lake", "build"] + ["+Drivers." + t for t in targets], cwd=here, capture_output=True, text=True).returncode == 0
+if names and not builds(names):
+    good = [n for n in names if builds([n])]
+    bad = [n for n in names if n not in good]
+    print("gen_dispatch: excluded (do not compile):", bad)
+    names = good
 out = ["import Lean.Data.Json", "import Drivers.Util"] + [f"import Drivers.{n}" for n in names]
 out += ["open Lean", "", "def dispatch (m op : String) (a : Json) : Except String Json :=", "  match m with"]
 for n in names:
